@@ -454,3 +454,69 @@ def atoms_at(node, func=None):
     for t, pol in path_conditions(node, func):
         out += split_conj(t, pol)
     return out
+
+
+# ------------------------------------------------------------------ evaluation-order walk of one statement/expression
+
+def eval_walk(node, state, visit, join):
+    """Abstractly evaluate `node` in Python's evaluation order, calling state = visit(n, state) on each
+    sub-node *after* its operands (post-order).  Conditional evaluation (IfExp, and/or, comprehension
+    bodies) is joined with `join(a, b)`.  Does not descend into lambdas or nested definitions."""
+    def ev(n, s):
+        if n is None:
+            return s
+        if isinstance(n, FUNC + (ast.Lambda, ast.ClassDef)):
+            return visit(n, s)
+        if isinstance(n, ast.IfExp):
+            s = ev(n.test, s)
+            return visit(n, join(ev(n.body, s), ev(n.orelse, s)))
+        if isinstance(n, ast.BoolOp):
+            s = ev(n.values[0], s)
+            for v in n.values[1:]:
+                s = join(s, ev(v, s))
+            return visit(n, s)
+        if isinstance(n, ast.Assign):
+            s = ev(n.value, s)
+            for t in n.targets:
+                s = ev(t, s)
+            return visit(n, s)
+        if isinstance(n, ast.AugAssign):
+            s = ev(n.value, s)
+            s = ev(n.target, s)
+            return visit(n, s)
+        if isinstance(n, ast.AnnAssign):
+            s = ev(n.value, s)
+            s = ev(n.target, s)
+            return visit(n, s)
+        if isinstance(n, (ast.ListComp, ast.SetComp, ast.GeneratorExp, ast.DictComp)):
+            # the first iterable is always evaluated; everything else may run zero times
+            s_first = ev(n.generators[0].iter, s)
+            s2 = ev(n.generators[0].target, s_first)
+            for c in n.generators[0].ifs:
+                s2 = ev(c, s2)
+            for g in n.generators[1:]:
+                s2 = ev(g.iter, s2)
+                s2 = ev(g.target, s2)
+                for c in g.ifs:
+                    s2 = ev(c, s2)
+            if isinstance(n, ast.DictComp):
+                s2 = ev(n.key, s2)
+                s2 = ev(n.value, s2)
+            else:
+                s2 = ev(n.elt, s2)
+            return visit(n, join(s_first, s2))
+        if isinstance(n, ast.Call):
+            s = ev(n.func, s)
+            for a in n.args:
+                s = ev(a, s)
+            for k in n.keywords:
+                s = ev(k.value, s)
+            return visit(n, s)
+        if isinstance(n, (ast.If, ast.While, ast.For, ast.AsyncFor, ast.Try, ast.With, ast.AsyncWith)):
+            raise ValueError("eval_walk is for simple statements and expressions")
+        for c in ast.iter_child_nodes(n):
+            if isinstance(c, (ast.expr_context, ast.operator, ast.unaryop, ast.cmpop, ast.boolop)):
+                continue
+            s = ev(c, s)
+        return visit(n, s)
+    return ev(node, state)
